@@ -411,6 +411,9 @@ impl PublishBuilder {
         log::trace!("Publish (QoS1) to {:#?}", self.packet);
 
         let rx = if tx.is_canceled() {
+            // this send does not occupy a slot of the window,
+            // the wake-up it may have received belongs to the next waiter
+            self.shared.wake_waiter();
             Err(SendPacketError::StreamingCancelled)
         } else {
             // the stream may start only if the publish header has been written
